@@ -159,7 +159,7 @@ impl Writer {
                 let w = Box::new(unsafe { diplomat_simple_write(buf.ptr(), cap + 1) });
                 Writer::Fixed { w, buf }
             }
-            "rust_owned" => Writer::Rust { w: diplomat_runtime::diplomat_buffer_write_create(cap) },
+            "rust_owned" => Writer::Rust { w: crate::track::scoped(|| diplomat_runtime::diplomat_buffer_write_create(cap)) },
             k => panic!("unknown writer kind {k}"),
         }
     }
@@ -210,7 +210,7 @@ impl Writer {
     }
     fn destroy(self) {
         if let Writer::Rust { w } = self {
-            unsafe { diplomat_runtime::diplomat_buffer_write_destroy(w) }
+            crate::track::scoped(|| unsafe { diplomat_runtime::diplomat_buffer_write_destroy(w) })
         }
     }
 }
@@ -279,7 +279,8 @@ fn replay_one(beh: &[Value]) -> Option<Value> {
                     ctx.grow_calls.clear();
                 }
                 let s = String::from_utf8(chunk.clone()).expect("spec chunks are valid UTF-8");
-                let r = guarded(|| w.dw().write_str(&s));
+                let via_char = beh[i].get("api").and_then(|x| x.as_str()) == Some("char");
+                let r = guarded(|| if via_char { w.dw().write_char(s.chars().next().unwrap()) } else { w.dw().write_str(&s) });
                 match r {
                     Err(p) => {
                         res = Some(json!({"step": i, "what": "panic in write_str", "panic": p, "chunk": chunk}));
@@ -400,8 +401,9 @@ pub fn record(args: &[String]) -> i32 {
     let mut problems = vec![];
     for run in 0..runs {
         let kind = *rng.pick(&kinds);
-        let cap = 1 + rng.below(6) as usize;
+        let cap = rng.below(7) as usize;      // 0 is what the JS, Dart and Kotlin runtimes (and an empty std::string) start with
         let mut events: Vec<Value> = vec![];
+        crate::track::scoped_reset();
         let mut w = Writer::new(kind, cap);
         events.push(json!({"ev": "New", "kind": kind, "cap": cap}));
         if let Writer::Caller { ctx, .. } = &mut w {
@@ -434,8 +436,10 @@ pub fn record(args: &[String]) -> i32 {
                     GrowScript::Ok(needed + 1 + rng.below(needed as u64 + 2) as usize)
                 });
             }
-            events.push(json!({"ev": "WriteBegin", "chunk": s.as_bytes()}));
-            let r = guarded(|| w.dw().write_str(&s));
+            // single characters go through write_char half of the time
+            let via_char = s.chars().count() == 1 && rng.chance(1, 2);
+            events.push(json!({"ev": "WriteBegin", "chunk": s.as_bytes(), "api": if via_char { "char" } else { "str" }}));
+            let r = guarded(|| crate::track::scoped(|| if via_char { w.dw().write_char(s.chars().next().unwrap()) } else { w.dw().write_str(&s) }));
             let o = w.obs();
             events.push(json!({"ev": "WriteEnd", "len": o.len, "cap": o.cap, "failed": o.failed, "content": o.content,
                 "mem_ok": w.memory_ok().is_ok(), "panic": r.is_err(), "err": matches!(r, Ok(Err(_)))}));
@@ -447,6 +451,10 @@ pub fn record(args: &[String]) -> i32 {
             problems.push(json!({"run": run, "what": m}));
         }
         w.destroy();
+        if kind == "rust_owned" {
+            // everything the runtime allocated for this writer (create, growth) must have been released by destroy
+            events.push(json!({"ev": "Destroy", "leaked": crate::track::scoped_live()}));
+        }
         nev += events.len();
         for e in &events {
             out.line(e);
